@@ -322,7 +322,7 @@ func (q *seqModel) cascade() {
 		sort.Slice(ids, func(i, j int) bool { return ids[i] < ids[j] })
 		for _, id := range ids {
 			rec := q.held[id]
-			v, en, _ := q.m.Expect(rec.op)
+			v, en, why := q.m.Expect(rec.op)
 			switch v {
 			case VProgram:
 				q.m.Apply(rec.op, en)
@@ -330,8 +330,10 @@ func (q *seqModel) cascade() {
 				delete(q.held, id)
 				changed = true
 			case VFail:
-				if en != nil && q.m.Resolvable(en) {
-					delete(q.held, id) // fails on retry (replace of a deleted target)
+				// fails on retry: a REPLACE whose target has gone is refused before its references are even looked
+				// at (so also while they still do not resolve)
+				if en != nil && (q.m.Resolvable(en) || why == "replace of missing entry") {
+					delete(q.held, id)
 					changed = true
 				}
 			case VEither:
